@@ -770,3 +770,22 @@ benign("c13-local-named-like-table", ["C13"], [(F, '''        conditions = []
         negate = False''', '''        conditions = []
         match_type = None
         negate = False''')])
+
+# --------------------------------------------------------------------------- C18
+seeded("z1-advance-before-yield", ["C18"], "Z1", [(P, '''            yield (m.lastgroup, m.group(m.lastgroup))
+            self.pos += len(m.group(0))''', '''            self.pos += len(m.group(0))
+            yield (m.lastgroup, m.group(m.lastgroup))''')], "verdicts unchanged; positions of errors shift; breaks the 4 exact-message tests? (line only)")
+seeded("z2-line-counts-cr", ["C18"], "Z2", [(P, '''return self.text[: self.pos].count(b"\\n") + 1''', '''return len(self.text[: self.pos].splitlines()) + 1''')], "differs for CRLF / empty last line")
+seeded("z2-line-off-by-one", ["C18"], "Z2", [(P, '''return self.text[: self.pos].count(b"\\n") + 1''', '''return self.text[: self.pos + 1].count(b"\\n") + 1''')], "only differs when the offending token is a newline-adjacent one")
+seeded("z2-column-zero-based", ["C18"], "Z2", [(P, '''return self.pos - self.text.rfind(b"\\n", 0, self.pos)''', '''return self.pos - self.text.rfind(b"\\n", 0, self.pos) - 1''')], "no test asserts a column")
+seeded("z2-column-from-start", ["C18"], "Z2", [(P, '''return self.pos - self.text.rfind(b"\\n", 0, self.pos)''', '''return self.pos - self.text.find(b"\\n", 0, self.pos)''')])
+seeded("z3-length-of-text", ["C18"], "Z3", [(P, '''                self.lexer.curcolno(),
+                len(tvalue),''', '''                self.lexer.curcolno(),
+                len(text),''')])
+seeded("z3-line-swapped-column", ["C18"], "Z3", [(P, '''                self.lexer.curlineno(),
+                self.lexer.curcolno(),
+                len(tvalue),''', '''                self.lexer.curcolno(),
+                self.lexer.curlineno(),
+                len(tvalue),''')])
+seeded("z4-eager-token-list", ["C18"], "Z4", [(P, "for ttype, tvalue in self.lexer.scan(text):", "for ttype, tvalue in list(self.lexer.scan(text)):")], "every verdict unchanged; all positions point at the end of input")
+benign("c18-count-with-bounds", ["C18", "C02"], [(P, '''return self.text[: self.pos].count(b"\\n") + 1''', '''return 1 + self.text.count(b"\\n", 0, self.pos)''')])
